@@ -33,6 +33,7 @@ CHECKS = {
     "C11": "gen.c11",
     "C12": "gen.c12",
     "C13": "gen.c13",
+    "C14": "gen.c14",
     "C15": "gen.c15",
     "C19": "gen.c19",
     "C20": "gen.c20",
